@@ -911,7 +911,7 @@ class Pre:
     regenerates the identical cases and picks the finished evaluation up here.  If the terms differ (they never
     should: everything is deterministic) the evaluation is simply done again."""
 
-    def __init__(self, ctx, fam, n, pool):
+    def __init__(self, ctx, fam, n, pool, pool_above=400):
         import dataclasses
         import random
         from hsverif import coq
@@ -919,7 +919,7 @@ class Pre:
         self._ctx = ctx
         self._seed = f"{ctx.seed}:{ctx.tier}:{fam.name}"
         self.rng = random.Random(self._seed)
-        self.fam = dataclasses.replace(fam, parallel=fam.parallel and n > 400)
+        self.fam = dataclasses.replace(fam, parallel=fam.parallel and n > pool_above)
         rng = random.Random(self._seed)
         cases = load_corpus(ctx.pid, fam.name) + [fam.gen(rng) for _ in range(n)]
         terms = []
